@@ -5,6 +5,7 @@
 # <demo-test-spec> = the cargo test arguments that run the demonstration, e.g.
 #   "-p qbice_integration_test --test zz_demo_c04"
 set -u
+export CARGO_INCREMENTAL=0
 ID=$1; shift
 DEMO="$*"
 WT=${WT_PREFIX:-/tmp/wt-}$ID
